@@ -2,7 +2,12 @@
 // from the verif_multi hook (cfg(brotli_verif)).
 //
 //   R sp=<spawner> q=<quality> w=<lgwin> f=<flag bits> t=<threads> in=<kind:len:seed> out=<bound|bound-K|N>
-//     [hint=<size hint>] [tr=1]
+//     [hint=<size hint>] [lb=<lgblock>] [tr=1]
+//     input kinds: those of streamlib::gen_data, and  lay.<T>.<letters>  = the input cut into the T job
+//              ranges [i*len/T, (i+1)*len/T) of CompressMulti, chunk i filled after letter i (cyclic):
+//              t text, z zeros, r noise, s skewed letters, m mix, p short period (1..16), P longer
+//              period (17..80), n noise head (at least half the chunk: fills the first meta-block(s))
+//              followed by one or two runs of short period (1..16, 4/11/15/16 favoured)
 //     spawner: thr            brotli::enc::compress_multi_no_threadpool (one OS thread per job)
 //              pool           brotli::enc::compress_multi              (fresh worker pool, t-1 workers)
 //              poolr:<W>      brotli::enc::compress_worker_pool on a pool of W workers that lives as
@@ -13,7 +18,14 @@
 //              failview:<K>   harness-side spawner whose K-th view() of the shared input fails
 //              failunwrap     harness-side spawner whose final unwrap() fails
 //     flag bits: 1 catable, 2 appendable, 4 magic_number, 8 favor_cpu_efficiency, 16 large_window
-//   answer: <OK n=<n>|ERR:<kind>|PANIC(..)> back=<1|0> bound=<b> dec=<ok|fail|na> h=<hash> [T=<trace>]
+//   answer: <OK n=<n>|ERR:<kind>|PANIC(..)> back=<1|0> bound=<b> dec=<ok|fail|na> h=<hash> [served=<k> ooo=<0|1>] ms=<t> [T=<trace>]
+//           served = results the reused pool had delivered before this call, ooo = 1 when a pool job finished
+//           before a job with a smaller index (out-of-order completion)
+//   watchdog: every request runs on a worker thread; when it has not answered within the budget
+//           (VERIF_MULTI_WATCHDOG_S seconds, default 60, plus a term in input length and quality) the main
+//           thread answers  NORETURN(<budget>s <what was running>) ... T=<events so far>  for it and ends the
+//           process with status 3 (the pool is stuck; the caller runs the remaining requests in a new process).
+//           Answers are flushed one by one, so the first request without an answer is the one that was running.
 use alloc_no_stdlib::SliceWrapper;
 use brotli::enc::backward_references::{BrotliEncoderParams, UnionHasher};
 use brotli::enc::threading::{
@@ -26,7 +38,9 @@ use std::collections::HashMap;
 use std::panic::AssertUnwindSafe;
 use std::sync::atomic::{AtomicBool, AtomicU64, Ordering};
 use std::sync::mpsc;
+use std::io::{BufRead, Write};
 use std::sync::{Arc, Mutex, RwLock};
+use std::time::{Duration, Instant};
 use vharness::streamlib::{decode_all, gen_data};
 use vharness::*;
 
@@ -39,6 +53,85 @@ impl SliceWrapper<u8> for VecW {
 
 fn kv<'a>(t: &'a [&'a str], key: &str) -> Option<&'a str> {
     t.iter().find_map(|x| x.strip_prefix(key))
+}
+
+// ------------------------------------------------------------------------------------------
+// inputs laid out along the job ranges of CompressMulti
+// ------------------------------------------------------------------------------------------
+fn job_range(i: usize, t: usize, n: usize) -> (usize, usize) {
+    (((i as u128 * n as u128) / t as u128) as usize, (((i as u128 + 1) * n as u128) / t as u128) as usize)
+}
+
+fn periodic(r: &mut Rng, p: usize, len: usize, v: &mut Vec<u8>) {
+    let p = p.max(1);
+    let mut base: Vec<u8> = (0..p).map(|_| r.next() as u8).collect();
+    if p > 1 && base.iter().all(|&b| b == base[0]) {
+        base[p - 1] = base[0].wrapping_add(1); // keep the true period at p
+    }
+    for i in 0..len {
+        v.push(base[i % p]);
+    }
+}
+
+fn short_period(r: &mut Rng) -> usize {
+    // the distances the format's initial distance ring holds, then every distance up to 16
+    if r.below(2) == 0 {
+        [4usize, 11, 15, 16][r.below(4) as usize]
+    } else {
+        1 + r.below(16) as usize
+    }
+}
+
+fn make_input(kind: &str, len: usize, seed: u64) -> Vec<u8> {
+    let rest = match kind.strip_prefix("lay.") {
+        Some(r) => r,
+        None => return gen_data(kind, len, seed),
+    };
+    let parts: Vec<&str> = rest.split('.').collect();
+    let t: usize = parts[0].parse::<usize>().unwrap_or(1).max(1);
+    let pat: Vec<char> = parts.get(1).copied().unwrap_or("t").chars().collect();
+    let pat = if pat.is_empty() { vec!['t'] } else { pat };
+    let mut v: Vec<u8> = Vec::with_capacity(len);
+    for i in 0..t {
+        let (s, e) = job_range(i, t, len);
+        let l = e - s;
+        let cs = seed.wrapping_mul(1_000_003).wrapping_add(i as u64 + 1);
+        let mut r = Rng::new(cs);
+        match pat[i % pat.len()] {
+            'z' => v.extend(gen_data("zero", l, cs)),
+            'r' => v.extend(gen_data("rand", l, cs)),
+            's' => v.extend(gen_data("skew", l, cs)),
+            'm' => v.extend(gen_data("mix", l, cs)),
+            'p' => {
+                let p = short_period(&mut r);
+                periodic(&mut r, p, l, &mut v)
+            }
+            'P' => {
+                let p = 17 + r.below(64) as usize;
+                periodic(&mut r, p, l, &mut v)
+            }
+            'n' => {
+                let mut pow2 = 1usize << 14;
+                while pow2 * 2 <= l - l / 4 {
+                    pow2 *= 2;
+                }
+                let mut head = [l / 2, l - l / 3, l - l / 4, pow2, pow2 + 1][r.below(5) as usize];
+                if head > l {
+                    head = l;
+                }
+                v.extend(gen_data("rand", head, cs ^ 0x5555));
+                let tail = l - head;
+                let first = if r.below(2) == 0 { tail } else { tail / 2 };
+                let p1 = short_period(&mut r);
+                periodic(&mut r, p1, first, &mut v);
+                let p2 = short_period(&mut r);
+                periodic(&mut r, p2, tail - first, &mut v);
+            }
+            _ => v.extend(gen_data("text", l, cs)),
+        }
+    }
+    v.truncate(len);
+    v
 }
 
 // ------------------------------------------------------------------------------------------
@@ -206,7 +299,35 @@ fn install_hook() {
 }
 
 struct Pools {
-    map: HashMap<usize, Arc<Mutex<Pool>>>,
+    // workers -> (the pool, results it has delivered so far)
+    map: HashMap<usize, (Arc<Mutex<Pool>>, u64)>,
+}
+
+// what the worker thread is doing, for the watchdog's verdict
+static CUR_INFO: Mutex<String> = Mutex::new(String::new());
+fn set_info(s: String) {
+    *CUR_INFO.lock().unwrap_or_else(|p| p.into_inner()) = s;
+}
+
+/// did a job that went to the pool (index < t-1) finish before a job with a smaller index?
+fn out_of_order(ev: &[verif_multi::Event], nt: usize) -> bool {
+    let mut last: Vec<Option<usize>> = vec![None; nt];
+    for (k, e) in ev.iter().enumerate() {
+        if e[0] == 3 && (e[1] as usize) < nt {
+            last[e[1] as usize] = Some(k);
+        }
+    }
+    let pool_jobs = nt.saturating_sub(1);
+    for i in 0..pool_jobs {
+        for j in i + 1..pool_jobs {
+            if let (Some(a), Some(b)) = (last[i], last[j]) {
+                if b < a {
+                    return true;
+                }
+            }
+        }
+    }
+    false
 }
 
 fn run_pool(params: BrotliEncoderParams, data: Vec<u8>, cap: usize, t: usize, pool: Option<Arc<Mutex<Pool>>>) -> (Result<Outcome, String>, bool) {
@@ -282,8 +403,9 @@ fn run_r(t: &[&str], pools: &mut Pools) -> String {
     let f: u32 = kv(t, "f=").unwrap_or("0").parse().unwrap();
     let nt: usize = kv(t, "t=").unwrap_or("2").parse().unwrap();
     let d: Vec<&str> = kv(t, "in=").unwrap_or("text:0:1").split(':').collect();
-    let data = if d[0] == "hex" { unhex(d[1]) } else { gen_data(d[0], d[1].parse().unwrap(), d[2].parse().unwrap()) };
+    let data = if d[0] == "hex" { unhex(d[1]) } else { make_input(d[0], d[1].parse().unwrap(), d[2].parse().unwrap()) };
     let hint: usize = kv(t, "hint=").unwrap_or("0").parse().unwrap();
+    let lgblock: i32 = kv(t, "lb=").unwrap_or("0").parse().unwrap();
     let want_trace = kv(t, "tr=").unwrap_or("0") == "1";
     let bound = brotli::enc::BrotliEncoderMaxCompressedSizeMulti(data.len(), nt);
     let cap: usize = match kv(t, "out=").unwrap_or("bound") {
@@ -301,7 +423,11 @@ fn run_r(t: &[&str], pools: &mut Pools) -> String {
     params.favor_cpu_efficiency = f & 8 != 0;
     params.large_window = f & 16 != 0;
     params.size_hint = hint;
+    params.lgblock = lgblock;
     let _ = verif_multi::take();
+    let mut served: Option<u64> = None;
+    set_info(format!("spawner {}", sp));
+    let started = Instant::now();
     let mut out = vec![0u8; cap];
     let kind: Vec<&str> = sp.split(':').collect();
     let oc: Result<Outcome, String> = match kind[0] {
@@ -361,11 +487,20 @@ fn run_r(t: &[&str], pools: &mut Pools) -> String {
         "poolr" => {
             drop(out);
             let workers: usize = kind.get(1).map(|x| x.parse().unwrap()).unwrap_or(4);
-            let p = pools
+            let ent = pools
                 .map
                 .entry(workers)
-                .or_insert_with(|| Arc::new(Mutex::new(brotli::enc::new_work_pool::<StandardAlloc, VecW>(workers))))
-                .clone();
+                .or_insert_with(|| (Arc::new(Mutex::new(brotli::enc::new_work_pool::<StandardAlloc, VecW>(workers))), 0));
+            let p = ent.0.clone();
+            served = Some(ent.1);
+            set_info(format!(
+                "compress_worker_pool on a reused pool of {} workers that had delivered {} results (result ring at slot {} of 16), {} jobs submitted",
+                workers,
+                ent.1,
+                ent.1 % 16,
+                nt.saturating_sub(1)
+            ));
+            ent.1 += nt.saturating_sub(1) as u64;
             let (r, dead) = run_pool(params.clone(), data.clone(), cap, nt, Some(p));
             if dead {
                 // the pool has lost a worker and holds a job for ever: abandon it
@@ -377,6 +512,7 @@ fn run_r(t: &[&str], pools: &mut Pools) -> String {
         }
         _ => return "BADREQ".to_string(),
     };
+    let ms = started.elapsed().as_millis();
     let ev = verif_multi::take();
     let (res, back, dec, h) = match oc {
         Ok(o) => {
@@ -400,6 +536,10 @@ fn run_r(t: &[&str], pools: &mut Pools) -> String {
         Err(p) => (p, "?".to_string(), "na", 0),
     };
     let mut s = format!("{} back={} bound={} dec={} h={}", res, back, bound, dec, h);
+    if let Some(k) = served {
+        s.push_str(&format!(" served={} ooo={}", k, if out_of_order(&ev, nt) { 1 } else { 0 }));
+    }
+    s.push_str(&format!(" ms={}", ms));
     if want_trace {
         s.push_str(" T=");
         s.push_str(&trace_string(&ev));
@@ -407,21 +547,75 @@ fn run_r(t: &[&str], pools: &mut Pools) -> String {
     s
 }
 
+fn budget_for(t: &[&str]) -> Duration {
+    let base: u64 = std::env::var("VERIF_MULTI_WATCHDOG_S").ok().and_then(|x| x.parse().ok()).unwrap_or(60);
+    let q: u64 = kv(t, "q=").and_then(|x| x.parse().ok()).unwrap_or(5);
+    let n: u64 = kv(t, "in=").and_then(|x| x.split(':').nth(1).and_then(|y| y.parse().ok())).unwrap_or(0);
+    let nt: u64 = kv(t, "t=").and_then(|x| x.parse().ok()).unwrap_or(1);
+    // the slowest honest calls: quality 10/11 (about 1 MB/s per job here), run one after the other by the inline spawner
+    let per_100k = if q >= 10 { 4 * nt.max(1) } else { 1 };
+    Duration::from_secs(base + n / 100_000 * per_100k + n / 50_000)
+}
+
 fn main() {
     install_hook();
-    let mut pools = Pools { map: HashMap::new() };
-    serve(|t| {
-        let r = guarded(AssertUnwindSafe(|| match t[0] {
-            "R" => run_r(&t[1..], &mut pools),
-            _ => "BADREQ".to_string(),
-        }));
-        match r {
-            Ok(s) => s,
-            Err(e) => e,
+    // requests run on a worker thread (with the pools); this thread is the watchdog
+    let (req_tx, req_rx) = mpsc::channel::<String>();
+    let (ans_tx, ans_rx) = mpsc::channel::<String>();
+    let worker = std::thread::Builder::new()
+        .name("requests".to_string())
+        .stack_size(256 << 20)
+        .spawn(move || {
+            let mut pools = Pools { map: HashMap::new() };
+            while let Ok(line) = req_rx.recv() {
+                let t: Vec<&str> = line.split_whitespace().collect();
+                let r = guarded(AssertUnwindSafe(|| match t[0] {
+                    "R" => run_r(&t[1..], &mut pools),
+                    _ => "BADREQ".to_string(),
+                }));
+                let ans = match r {
+                    Ok(s) => s,
+                    Err(e) => e,
+                };
+                if ans_tx.send(ans).is_err() {
+                    break;
+                }
+            }
+            // worker pools that lost a thread cannot be dropped (Drop joins the workers)
+            for (_, p) in pools.map.drain() {
+                drop(p);
+            }
+        })
+        .unwrap();
+    let stdin = std::io::stdin();
+    let stdout = std::io::stdout();
+    for line in stdin.lock().lines() {
+        let line = line.unwrap();
+        let toks: Vec<&str> = line.split_whitespace().collect();
+        if toks.is_empty() {
+            continue;
         }
-    });
-    // worker pools that lost a thread cannot be dropped (Drop joins the workers)
-    for (_, p) in pools.map.drain() {
-        drop(p);
+        let budget = budget_for(&toks);
+        req_tx.send(line.clone()).unwrap();
+        let (ans, stop) = match ans_rx.recv_timeout(budget) {
+            Ok(a) => (a, false),
+            Err(mpsc::RecvTimeoutError::Timeout) => {
+                let info = CUR_INFO.lock().unwrap_or_else(|p| p.into_inner()).clone();
+                let ev = verif_multi::take();
+                (format!("NORETURN({}s: {}) back=? bound=0 dec=na h=0 ms={} T={}", budget.as_secs(), info, budget.as_millis(), trace_string(&ev)), true)
+            }
+            Err(mpsc::RecvTimeoutError::Disconnected) => ("PANIC(harness: the request thread died)".to_string(), true),
+        };
+        {
+            let mut o = stdout.lock();
+            writeln!(o, "{}", ans).unwrap();
+            o.flush().unwrap();
+        }
+        if stop {
+            // the call (and whatever it holds) is stuck: nothing of this process can be reused
+            std::process::exit(3);
+        }
     }
+    drop(req_tx);
+    let _ = worker.join();
 }
